@@ -72,6 +72,9 @@ func propC01(c *Ctx, r *Report) {
 	r.Clauses = append(r.Clauses, depthLikeClause)
 	c.runDepthLike(r, "image.depthlike", inPkgs("spirv", "ir"))
 	r.floor("image.depthlike", 4)
+	r.Clauses = append(r.Clauses, zeroInitClause)
+	c.runZeroInitOpVariable(r, "zeroinit.opvariable")
+	r.floor("zeroinit.opvariable", 2)
 	r.floor("tables.OpCode", 150)
 	r.floor("tables.Decoration", 10)
 	r.floor("tables.BuiltIn", 20)
